@@ -570,6 +570,109 @@ def c07_5(ck, prog):
         r.ok('dispatch_matches:all-recipients-tried')
 
 
+NOMEM = 'org.freedesktop.DBus.Error.NoMemory'
+ASSERT_HELPERS = {'_dbus_assert_error_is_set', '_dbus_assert_error_is_clear', '_dbus_assert_error_xor_bool',
+                  'dbus_error_is_set', '_dbus_real_assert', '_dbus_verbose_real', 'dbus_error_has_name',
+                  'dbus_error_free'}
+
+
+def error_names(prog, fn, memo, depth=0):
+    """Set of error names fn may store into its DBusError *error parameter ('?' = unknown)."""
+    if fn.key in memo:
+        return memo[fn.key]
+    memo[fn.key] = set()          # cycle guard
+    out = set()
+    ep = [p['name'] for p in fn.params if p['t'].startswith('DBusError *')]
+    if not ep:
+        memo[fn.key] = out
+        return out
+    for b, i, c in fn.calls():
+        cal = c.get('callee')
+        passes = [ai for ai, a in enumerate(c['args']) if is_ref(a) and a.get('kind') == 'param' and a['name'] in ep]
+        if not passes or cal in ASSERT_HELPERS:
+            continue
+        if cal in ('dbus_set_error', 'dbus_set_error_const'):
+            nm = c['args'][1]
+            out.add(nm['v'] if nm.get('k') == 'str' else '?')
+        elif cal in ('dbus_move_error', 'dbus_propagate_error'):
+            out.add('?moved')
+        elif cal is None:
+            out.add('?indirect')
+        elif cal == 'bus_dispatch_matches' and len(c['args']) > 2 and is_int(c['args'][2], 0):
+            # with no addressed recipient bus_dispatch_matches skips the policy gate and the fd test of the
+            # addressee (both are under `addressed_recipient != NULL`, see C05.2); refusals of broadcast
+            # recipients are swallowed by send_one_message: only out-of-memory is left
+            out.add(NOMEM)
+        else:
+            gs = [g for g in prog.by_name.get(cal, [])]
+            if not gs or depth > 12:
+                out.add('?%s' % cal)
+            else:
+                for g in gs:
+                    out |= error_names(prog, g, memo, depth + 1)
+    memo[fn.key] = out
+    return out
+
+
+def c07_6(ck, prog):
+    r = ck.rule('C07.6', 'a bus driver method answers once: after its reply was staged, no step that can fail with '
+                'an error other than out-of-memory follows (non-OOM errors do not cancel the transaction, so the '
+                'staged reply would be sent together with the error)', 'TS',
+                breaks='RemoveMatch of an unknown rule is answered with a method return AND MatchRuleNotFound',
+                floor=20)
+    from rules.C18 import handler_rows
+    rows = handler_rows(prog)
+    REPLY = {'bus_driver_send_ack_reply', 'bus_transaction_send_from_driver'}
+    memo = {}
+    n = 0
+    for row in rows:
+        hname = row['handler']
+        if not hname or not prog.has_fn(hname):
+            continue
+        fn = prog.fn(hname) if len(prog.by_name.get(hname, [])) == 1 else None
+        if fn is None or fn.param('error') is None:
+            continue
+        n += 1
+        rep = {c['id'] for b, i, c in fn.calls() if c.get('callee') in REPLY}
+        if not rep:
+            r.ok('%s:no-direct-reply' % hname)
+            continue
+        bad = {}
+
+        def on_event(user, ev, ctx, rep=rep, bad=bad):
+            if ev['ev'] == 'call':
+                c = ev['e']
+                if user and c['id'] not in rep and any(is_ref(a, 'error') and a.get('kind') == 'param' for a in c['args']):
+                    cal = c.get('callee')
+                    if cal in ASSERT_HELPERS:
+                        pass
+                    elif cal in ('dbus_set_error', 'dbus_set_error_const'):
+                        nm = c['args'][1]
+                        if not (nm.get('k') == 'str' and nm['v'] == NOMEM):
+                            bad['%s(%s)' % (cal, estr(nm)[:40])] = c['line']
+                    else:
+                        names = set()
+                        for g in prog.by_name.get(cal, []):
+                            names |= error_names(prog, g, memo)
+                        if not prog.by_name.get(cal):
+                            names.add('?%s' % cal)
+                        if names - {NOMEM}:
+                            bad[cal] = c['line']
+                if c['id'] in rep:
+                    return user | {c['id']}
+            return user
+        Explorer(fn, init=frozenset(), on_event=on_event, track=None, cap=200000).run()
+        if bad:
+            for cal, line in bad.items():
+                r.violation('%s:fallible-after-reply=%s' % (hname, cal), hname, fn.file, line,
+                            '%s stages its reply and afterwards calls %s, which can fail with an error other than '
+                            'out-of-memory: the caller then receives both the reply and the error' % (hname, cal))
+        else:
+            r.ok('%s:reply-staged-last' % hname)
+    if n < 20:
+        raise AnalysisBroken('only %d driver handlers analysed' % n)
+
+
 def run(ck):
     ck.explanation = (
         'Static rules over bus/signals.c, bus/driver.c, bus/dispatch.c, bus/connection.c: a table of the nine '
@@ -586,3 +689,4 @@ def run(ck):
         c07_3(ck, prog)
         c07_4(ck, prog)
         c07_5(ck, prog)
+        c07_6(ck, prog)
